@@ -471,7 +471,7 @@ Proof. vm_compute. split; reflexivity. Qed.
 
 (* push_u8 on a (unreachable) buffer violating Inv succeeds where emits reports OutOfBuffer *)
 Example push_u8_needs_Inv :
-  let b := {| data := repeat 0 4081; bookmark := 0 |} in
+  let b := {| data := repeat 0 (S (Z.to_nat BUF_MAX_SIZE)); bookmark := 0 |} in
   is_ok (push_u8 b 7) = true /\ emits b [7] 0 = Err OutOfBuffer.
 Proof. vm_compute. split; reflexivity. Qed.
 
